@@ -170,7 +170,8 @@ pub fn print_command(c: &Command, st: &mut Style) -> Option<String> {
             picked_zones, return_fields, link_field, aggs, time_bucket, group_by, event_sequence,
         } => {
             if picked_zones.is_some() || !is_ident(event_type) { return None; }
-            let mut out = st.kw(if st.vary && st.bits.chance(1, 5) { "FIND" } else { "QUERY" });
+            let find = st.vary && st.bits.chance(1, 5);
+            let mut out = st.kw(if find { "FIND" } else { "QUERY" });
             out.push_str(&st.sp());
             match event_sequence {
                 None => out.push_str(event_type),
